@@ -46,7 +46,8 @@ def hug(n):
 def daily_cases(draw, klass=None):
     c = {"kind": "daily", "klass": klass or draw(st.sampled_from(["daily", "daily", "billing"])), "baseline": draw(st.booleans()),
          "tz": draw(st.sampled_from(ZONES)), "electric": draw(st.booleans()),
-         "n": draw(st.one_of(st.sampled_from([328, 329, 330, 364, 365, 366]), st.integers(250, 420))),
+         # spans of 330/340/350/360 days: 90% of them is a whole number of days, so one hour more or less of valid time decides
+         "n": draw(st.one_of(st.sampled_from([328, 329, 330, 364, 365, 366]), st.integers(250, 420), st.sampled_from([330, 340, 350, 360]))),
          "start_day": draw(st.one_of(st.integers(0, 700), st.sampled_from([313, 314, 315, 67, 70, 677, 680]))),  # just after a DST change
          "vseed": draw(st.integers(0, 2 ** 20)), "entry": draw(st.sampled_from(["frame", "from_series"])),
          "feed": draw(st.sampled_from(["daily", "hourly"]))}
@@ -54,6 +55,8 @@ def daily_cases(draw, klass=None):
     c["miss_u"] = draw(hug(n))
     c["miss_t"] = draw(hug(n))
     c["overlap"] = draw(st.booleans())  # the missing temperature days are the missing usage days (or disjoint)
+    # the 25-hour and/or the 23-hour day of the span is one of the missing usage days (its period is not 1.0 days long)
+    c["dst_miss"] = draw(st.sampled_from([None, None, "long", "short", "both"]))
     c["month_t"] = draw(st.sampled_from([0, 0, 2, 3, 4]))  # days missing inside one calendar month
     c["partial_hours"] = draw(st.sampled_from([0, 0, 1, 2, 3, 11, 12, 13]))  # hourly feed: hours missing on some days
     c["partial_days"] = draw(hug(n)) if c["partial_hours"] else 0
@@ -92,6 +95,19 @@ def build_daily(c):
     T = np.round(synth.daily_temperature(idx, {}, rng), 3)
     inner = np.arange(1, n - 1)
     mu = rng.choice(inner, min(c["miss_u"], len(inner)), replace=False) if c["miss_u"] else np.array([], int)
+    if c.get("dst_miss") and len(mu):
+        step = np.diff(idx.asi8)
+        day = np.median(step)
+        want = []
+        if c["dst_miss"] in ("long", "both"):
+            want += [i for i in inner if step[i] > day][:1]
+        if c["dst_miss"] in ("short", "both"):
+            want += [i for i in inner if step[i] < day][:1]
+        mu = [int(x) for x in mu]
+        for j, i in enumerate(want):
+            if int(i) not in mu and j < len(mu):
+                mu[j] = int(i)
+        mu = np.array(sorted(set(mu)), int)
     if c["overlap"]:
         pool = np.concatenate([mu, np.setdiff1d(inner, mu)])
         mt = pool[: c["miss_t"]]
@@ -222,7 +238,8 @@ def judge_daily(c, rec):
     Base = {"daily": (em.DailyBaselineData, em.DailyReportingData), "billing": (em.BillingBaselineData, em.BillingReportingData)}[klass][0 if c["baseline"] else 1]
     tz = c["tz"]
     K = "%s/%s" % (klass, "baseline" if c["baseline"] else "reporting")
-    cls = ["class=" + K, "entry=" + c["entry"], "feed=" + c["feed"], "electric=%d" % c["electric"], "meter_feed=" + c.get("meter_feed", "daily")]
+    cls = ["class=" + K, "entry=" + c["entry"], "feed=" + c["feed"], "electric=%d" % c["electric"], "meter_feed=" + c.get("meter_feed", "daily"),
+           "dst-day-missing=%s" % (c.get("dst_miss") or "no"), "n-multiple-of-10=%d" % (c["n"] % 10 == 0)]
     meter = pd.Series(obs_in, index=idx, name="observed")
     if klass == "billing":
         starts, per, lengths = c["_reads"]
